@@ -17,7 +17,7 @@ int   __real_pthread_join(pthread_t, void**);
 int   __real_pthread_mutex_lock(pthread_mutex_t*);
 int   __real_pthread_mutex_trylock(pthread_mutex_t*);
 int   __real_pthread_mutex_unlock(pthread_mutex_t*);
-void* __real_pthread_getspecific(pthread_key_t);
+#define __real_pthread_getspecific pthread_getspecific   /* redirected by macro in /repo objects, not by --wrap */
 
 #define MAXT 24
 #define TSTACK_BASE 0x1F1000000000ULL
@@ -51,6 +51,7 @@ static int  g_chaos_den = 4;
 static Rng  g_rng;
 static int  g_sched_pos;
 static __thread int tls_self;
+static __thread int tls_registered;   /* only threads the scheduler has started may yield */
 
 #define MAXMTX 64
 static struct { void* m; int owner; } M[MAXMTX];   /* owner: tid+1, 0 = free */
@@ -108,7 +109,7 @@ static void block_and_switch(int site) {
 }
 
 void sim_yield(int site) {
-  if (!g_active || g_alive < 2) return;
+  if (!g_active || g_alive < 2 || !tls_registered) return;
   g_yields++;
   uint32_t ord = g_ord++;
   int me = tls_self;
@@ -137,7 +138,7 @@ void sched_init(const Plan* p) {
   memset(T, 0, sizeof T);
   T[0].state = T_RUNNABLE; T[0].th = pthread_self();
   sem_init(&T[0].sem, 0, 0);
-  tls_self = 0; g_cur = 0; g_nthreads = 1; g_alive = 1;
+  tls_self = 0; tls_registered = 1; g_cur = 0; g_nthreads = 1; g_alive = 1;
   g_active = 1;
   arena_yield = hook_yield;
   sched_install_hook(hook_yield);
@@ -147,9 +148,11 @@ static void* trampoline(void* arg) {
   int me = (int)(intptr_t)arg;
   tls_self = me;
   while (sem_wait(&T[me].sem) < 0 && errno == EINTR) {}
+  tls_registered = 1;
   void* r = T[me].fn(T[me].arg);
   /* finished: publish, wake joiners, hand the baton on */
   T[me].state = T_DONE;
+  tls_registered = 0;
   g_alive--;
   ev("exit t%d", me);
   for (int t = 0; t < g_nthreads; t++)
